@@ -215,4 +215,229 @@ theorem export_of_session_file (mask : Quic.Dissect.MaskFn) (H : Crypto.Prims) (
     rw [this] at hw
     cases hw
   · exact h
+section
+open TLX.Spec.Demux TLX.Lemmas.MainLoop TLX.Dissect TLX.Spec.FrameBuild TLX.Spec.TlsCapture TLX.Props.C12Dissect
+open TLX.Cipher TLX.RecordLayer TLX.Spec.TlsSender TLX.Props.C01 TLX.Lemmas.Pipeline TLX.Spec.TlsConnection
+open TLX.Lemmas.Capstone TLX.Props.C01Pipeline TLX.Spec.TlsFraming TLX.Props.C01Capstone
+
+
+theorem rec_le_dirBytes (recs : List TcpOut.Rec) (r : TcpOut.Rec) (h : r ∈ recs) :
+    r.bytes.length ≤ (Props.C06.dirBytes r.fromServer recs).length := by
+  unfold Props.C06.dirBytes
+  have hm : r ∈ recs.filter (·.fromServer == r.fromServer) := List.mem_filter.mpr ⟨h, by simp⟩
+  generalize recs.filter (·.fromServer == r.fromServer) = l at hm
+  induction l with
+  | nil => cases hm
+  | cons x xs ih =>
+    simp only [List.flatMap_cons, List.length_append]
+    rcases List.mem_cons.mp hm with rfl | hm
+    · omega
+    · have := ih hm; omega
+
+/-- a sufficient condition for `RecordsFit`: the whole conversation has at most 65495 bytes of plaintext -/
+theorem recordsFit_of_total (H : Crypto.Prims) (P : Cipher.Prims) (info : Nat → Pipeline.Info) (c : Pipeline.Conn)
+    (kl : List Keylog.Key) (frames : List TcpOut.Frame) (pc psv : Bytes)
+    (hconn : Pipeline.connOut H P info c kl = some (frames.map (Pipeline.addressed c.opts c)))
+    (hre : Spec.reassemble frames = some (pc, psv)) (h : pc.length + psv.length ≤ 65495) : RecordsFit H P info c kl := by
+  rw [connOut_eq] at hconn
+  cases hb : TcpOut.build ((sessTraffic H P info c kl).map (toRec fun id => (info id).ts)) with
+  | none => simp only [sessTraffic] at hb; rw [hb] at hconn; cases hconn
+  | some fr' =>
+    have hb' := hb
+    simp only [sessTraffic] at hb
+    rw [hb] at hconn
+    simp only [Option.map_some, Option.some.injEq] at hconn
+    have h1 := reassemble_total _ _ _ (Props.C06.reassemble_build _ _ hb')
+    have h2 := reassemble_total _ _ _ hre
+    have h3 : (fr'.map (·.payload.length)).sum = (frames.map (·.payload.length)).sum := by
+      rw [← addressed_payload c.opts c fr', ← addressed_payload c.opts c frames, hconn]
+    intro e he
+    have := rec_le_dirBytes _ _ (List.mem_map.mpr ⟨e, he, rfl⟩ :
+      toRec (fun id => (info id).ts) e ∈ (sessTraffic H P info c kl).map (toRec fun id => (info id).ts))
+    have hbytes : (toRec (fun id => (info id).ts) e).bytes = e.data.getD TcpOut.placeholder := rfl
+    rw [hbytes] at this
+    cases hd : (toRec (fun id => (info id).ts) e).fromServer <;> rw [hd] at this <;> omega
+
+theorem exported_lt (keep : Bool) (pm : List (Int × Int)) (sp : Nat) (hsp : sp < 65536)
+    (hpm : ∀ kv ∈ pm, kv.2.toNat < 65536) :
+    TcpOut.exportedServerPort keep (Pipeline.portmapFn pm) sp < 65536 := by
+  unfold TcpOut.exportedServerPort
+  split
+  · exact hsp
+  · unfold Pipeline.portmapFn
+    cases hf : pm.reverse.find? (·.1 == (sp : Int)) with
+    | none => simp
+    | some kv =>
+      simp only [Option.map_some, Option.getD_some]
+      exact hpm kv (List.mem_reverse.mp (List.mem_of_find?_eq_some hf))
+
+theorem infoOf_ts (us : Nat) (d : Dissect.Dissected) : (infoOf us d).ts = us := by
+  cases d with
+  | notIp => rfl
+  | ip x => simp only [infoOf]; split <;> rfl
+
+theorem infosFrom_ts (cap : List CapEv) (n : Nat) : ∀ x ∈ infosFrom n cap, ∃ e ∈ cap, x.2.ts = e.us := by
+  induction cap generalizing n with
+  | nil => intro x hx; cases hx
+  | cons e rest ih =>
+    intro x hx
+    simp only [infosFrom, List.mem_cons] at hx
+    rcases hx with rfl | hx
+    · exact ⟨e, by simp, infoOf_ts _ _⟩
+    · obtain ⟨e', he', h⟩ := ih (n + 1) x hx
+      exact ⟨e', by simp [he'], h⟩
+
+/-- packet times below 2^64 µs on the capture ⇒ every time `Pipeline` can read behind a tag is -/
+theorem capInfo_ts (cap : List CapEv) (h : ∀ e ∈ cap, e.us < 2 ^ 64) (id : Nat) : (capInfo cap id).ts < 2 ^ 64 := by
+  unfold capInfo Ingest.lookup
+  cases hf : (infosFrom 0 cap).find? (·.1 == id) with
+  | none => simp only [Option.map_none, Option.getD_none]; exact (by decide : (default : Pipeline.Info).ts < 2 ^ 64)
+  | some x =>
+    simp only [Option.map_some, Option.getD_some]
+    obtain ⟨e, he, hx⟩ := infosFrom_ts cap 0 x (List.mem_of_find?_eq_some hf)
+    rw [hx]; exact h e he
+
+/-- **C01 from file to file, SSL 3.0 – TLS 1.2, WITHOUT the abort alternative**: the hypotheses of `tls12_capture_exact` and
+    what the write loop needs ⇒ the output file is written and `Exact`ly contains the conversation. -/
+theorem tls12_capture_exact_file (mask : Quic.Dissect.MaskFn) (H : Crypto.Prims) (P : Prims) (L : SealLaws P)
+    -- the capture file: bytes written by the independent encoder in ANY container variant, holding the described packets
+    (fl : Flow) (hne : clientEp fl ≠ serverEp fl) (evs : List CEv) (hdesc : Described fl evs)
+    (hnot1 : ∀ e ∈ evs.map CEv.cap, Ingest.isMinusOne e.t = false)
+    (cv : Spec.Containers.Variant) (cevs : List Spec.Containers.Ev) (hcwf : cv.WF cevs)
+    (hitems : cevs.filterMap (Spec.Containers.scale cv) = (evs.map CEv.cap).map CapEv.item)
+    -- the options: no `-c`, no `-a`; the server port is a server port, the client port is not
+    (args : Args) (keyFile : Option Keylog.Str)
+    (hnoc : args.checksumTest = false) (hmeta : args.metadata = false)
+    (pm : List (Int × Int)) (ports : List Int)
+    (hpm : Options.getPortMap Options.Src.bare args.mArg = .ok pm)
+    (hports : Options.serverPorts Options.Src.builtin Options.Src.pDefault args.pArg = .ok ports)
+    (hsp : ports.contains (fl.serverPort : Int) = true) (hcp : ports.contains (fl.clientPort : Int) = false)
+    (p0 : Pkt) (rest : List Pkt) (hfp : flowPkts fl 0 evs = p0 :: rest)
+    -- the connection as sent (hypotheses of `tls12_connection_exact`, for the session object and the key-log file)
+    (t : Transcript) (hch : t.ch.WellFormed) (hsh : t.sh.WellFormed) (hrc : t.rvC.length = 2) (hrs : t.rvS.length = 2)
+    (hv : t.ver.length = 2) (hcomp : t.sh.compressionMethod = 0)
+    (v : Session.Ver) (hvne : v ≠ .tls13) (hneg : Negotiated t.rvS t.sh v)
+    (ps : CipherSuite.Params) (hres : CipherSuite.resolve (Bytes.beNat t.sh.cipherSuite) = some ps)
+    (a : Pipeline.SuiteArgs) (hargs : Pipeline.suiteArgs ps = some a)
+    (fk : Keylog.Key) (fks : List Keylog.Key)
+    (hfound : (Keylog.findSessionSecrets ((fileKeysOf keyFile).getD []) (Pipeline.natsOfBytes t.ch.random)).filter
+        (fun k => k.label == Keylog.s_CLIENT_RANDOM || k.label == Keylog.s_RSA) = fk :: fks)
+    (secrets : List KeySchedule.Secret) (hsec : Pipeline.secretsOf false (fk :: fks) = some secrets)
+    (k : KeySchedule.Keys6)
+    (hgen : KeySchedule.generateKeys H (Pipeline.ksVersion v) a.ks secrets t.ch.random t.sh.random
+      = .ok (some (.legacy k)))
+    (cls : CipherClass)
+    (hcls : classOf a.bulk (Pipeline.rlVersion v)
+      (Session.extGet ((t.sh.extensions.getD []).map extPair) [0x00, 0x16]).isSome a.tagLen = some cls)
+    (hmac : 0 < (KeySchedule.macSuite H a.ks.mac).outLen)
+    (hck : KeyMatOk cls k.clientKey k.clientIv) (hsk : KeyMatOk cls k.serverKey k.serverIv)
+    (hsc : Script12 t.cEvs) (hss : Script12 t.sEvs)
+    (hokc : ∀ e ∈ t.cEvs, EvOk1 cls (KeySchedule.macSuite H a.ks.mac).outLen e)
+    (hoks : ∀ e ∈ t.sEvs, EvOk1 cls (KeySchedule.macSuite H a.ks.mac).outLen e)
+    (hwr : ∀ d, ∀ r ∈ t.records P L cls (legacySnd k) d, WholeRecord r)
+    (hlen : t.cEvs.length + t.sEvs.length ≤ seqLimit)
+    -- the capture of the connection, sender side; causality on the released records as in the connection capstone
+    (hwires : WiresInOrder evs (t.stream P L cls (legacySnd k)))
+    (hcausal : Causal12 (connRecs (capInfo (evs.map CEv.cap)) (sessionOf (evs.map CEv.cap) (optsOf args ports pm) p0 rest)))
+    -- what the write loop needs (each CAN fail on the real tool: see the header)
+    (hcport : fl.clientPort < 65536) (hsport : fl.serverPort < 65536) (hpmv : ∀ kv ∈ pm, kv.2.toNat < 65536)
+    (hbytes : (Spec.TlsConnection.plainOf t.cEvs).length + (Spec.TlsConnection.plainOf t.sEvs).length + 1 < 2 ^ 32)
+    (hrec : RecordsFit H P (capInfo (evs.map CEv.cap)) (sessionOf (evs.map CEv.cap) (optsOf args ports pm) p0 rest)
+      ((fileKeysOf keyFile).getD []))
+    (hus : ∀ e ∈ evs.map CEv.cap, e.us < 2 ^ 64)
+    (hothers : ∀ blk, Pipeline.connOut H P (capInfo (evs.map CEv.cap))
+        (sessionOf (evs.map CEv.cap) (optsOf args ports pm) p0 rest) ((fileKeysOf keyFile).getD []) = some blk →
+      OthersFit mask H P args keyFile (evs.map CEv.cap) blk) :
+    ∃ f, exportFile mask H P args cv.isLegacy keyFile (Spec.Containers.encode cv cevs) = .file f ∧
+      Exact f (sessionOf (evs.map CEv.cap) (optsOf args ports pm) p0 rest)
+        (Spec.TlsConnection.plainOf t.cEvs) (Spec.TlsConnection.plainOf t.sEvs) := by
+  have hread : Container.read cv.isLegacy (Spec.Containers.encode cv cevs) = .ok ((evs.map CEv.cap).map CapEv.item) := by
+    rw [Props.C12.reader_roundtrip cv cevs hcwf, hitems]
+  have hok := capOk_of_described fl evs hdesc hnot1
+  obtain ⟨hF, hcand, hsrv, hcli, hdelv⟩ :=
+    described_session fl hne evs hdesc (optsOf args ports pm) hnoc hsp hcp p0 rest hfp
+  obtain ⟨frames, hconn, hre, _⟩ := tls12_connection_exact H P L ((fileKeysOf keyFile).getD []) (capInfo (evs.map CEv.cap))
+    (sessionOf (evs.map CEv.cap) (optsOf args ports pm) p0 rest) hmeta t hch hsh hrc hrs hv hcomp v hvne hneg ps hres a hargs fk fks
+    hfound secrets hsec k hgen cls hcls hmac hck hsk hsc hss hokc hoks hwr hlen (hdelv _ hwires) hcausal
+  have hfits := connOut_fits H P (capInfo (evs.map CEv.cap)) (sessionOf (evs.map CEv.cap) (optsOf args ports pm) p0 rest)
+    ((fileKeysOf keyFile).getD []) frames _ _ hconn hre hrec hbytes
+    (by rw [hcli]; exact hcport)
+    (by rw [hsrv]; exact exported_lt _ _ _ hsport hpmv)
+    (capInfo_ts _ hus)
+  obtain ⟨f, hf, hrb⟩ := export_of_session_file mask H P args cv.isLegacy keyFile _ (evs.map CEv.cap) hread hok hnoc pm ports
+    hpm hports (refPkt fl) p0 rest hF hcand _ hconn hfits (hothers _ hconn)
+  exact ⟨f, hf, frames, hrb, hre⟩
+
+/-- **… TLS 1.3.** -/
+theorem tls13_capture_exact_file (mask : Quic.Dissect.MaskFn) (H : Crypto.Prims) (P : Prims) (L : SealLaws P)
+    -- the capture file: bytes written by the independent encoder in ANY container variant, holding the described packets
+    (fl : Flow) (hne : clientEp fl ≠ serverEp fl) (evs : List CEv) (hdesc : Described fl evs)
+    (hnot1 : ∀ e ∈ evs.map CEv.cap, Ingest.isMinusOne e.t = false)
+    (cv : Spec.Containers.Variant) (cevs : List Spec.Containers.Ev) (hcwf : cv.WF cevs)
+    (hitems : cevs.filterMap (Spec.Containers.scale cv) = (evs.map CEv.cap).map CapEv.item)
+    -- the options: no `-c`, no `-a`; the server port is a server port, the client port is not
+    (args : Args) (keyFile : Option Keylog.Str)
+    (hnoc : args.checksumTest = false) (hmeta : args.metadata = false)
+    (pm : List (Int × Int)) (ports : List Int)
+    (hpm : Options.getPortMap Options.Src.bare args.mArg = .ok pm)
+    (hports : Options.serverPorts Options.Src.builtin Options.Src.pDefault args.pArg = .ok ports)
+    (hsp : ports.contains (fl.serverPort : Int) = true) (hcp : ports.contains (fl.clientPort : Int) = false)
+    (p0 : Pkt) (rest : List Pkt) (hfp : flowPkts fl 0 evs = p0 :: rest)
+    -- the connection as sent (hypotheses of `tls13_connection_exact`, for the session object and the key-log file)
+    (t : Transcript) (hch : t.ch.WellFormed) (hsh : t.sh.WellFormed) (hrc : t.rvC.length = 2) (hrs : t.rvS.length = 2)
+    (hv : t.ver.length = 2) (hcomp : t.sh.compressionMethod = 0) (hneg : Negotiated t.rvS t.sh .tls13)
+    (ps : CipherSuite.Params) (hres : CipherSuite.resolve (Bytes.beNat t.sh.cipherSuite) = some ps)
+    (a : Pipeline.SuiteArgs) (hargs : Pipeline.suiteArgs ps = some a)
+    (fk : Keylog.Key) (fks : List Keylog.Key)
+    (hfound : Keylog.findSessionSecrets ((fileKeysOf keyFile).getD []) (Pipeline.natsOfBytes t.ch.random) = fk :: fks)
+    (secrets : List KeySchedule.Secret) (hsec : Pipeline.secretsOf true (fk :: fks) = some secrets)
+    (k : KeySchedule.Installed13)
+    (hgen : KeySchedule.generateKeys H .tls13 a.ks secrets t.ch.random t.sh.random = .ok (some (.tls13 k)))
+    (chk chiv cak caiv shk shiv sak saiv : Bytes)
+    (hk : k.clientHsKey = some chk ∧ k.clientHsIv = some chiv ∧ k.clientAppKey = some cak ∧ k.clientAppIv = some caiv ∧
+      k.serverHsKey = some shk ∧ k.serverHsIv = some shiv ∧ k.serverAppKey = some sak ∧ k.serverAppIv = some saiv)
+    (cls : CipherClass)
+    (hcls : classOf a.bulk .tls13
+      (Session.extGet ((t.sh.extensions.getD []).map extPair) [0x00, 0x16]).isSome a.tagLen = some cls)
+    (h1 : KeyMatOk cls chk chiv) (h2 : KeyMatOk cls cak caiv) (h3 : KeyMatOk cls shk shiv) (h4 : KeyMatOk cls sak saiv)
+    (hsc : Script13 t.cEvs) (hss : Script13 t.sEvs)
+    (hokc : ∀ e ∈ t.cEvs, EvOk1 cls (KeySchedule.macSuite H a.ks.mac).outLen e)
+    (hoks : ∀ e ∈ t.sEvs, EvOk1 cls (KeySchedule.macSuite H a.ks.mac).outLen e)
+    (hwr : ∀ d, ∀ r ∈ t.records P L cls ⟨SDir.init chk chiv cak caiv, SDir.init shk shiv sak saiv⟩ d, WholeRecord r)
+    (hlen : budget13 t ≤ seqLimit)
+    -- the capture of the connection, sender side; causality on the released records as in the connection capstone
+    (hwires : WiresInOrder evs (t.stream P L cls ⟨SDir.init chk chiv cak caiv, SDir.init shk shiv sak saiv⟩))
+    (hcausal : Causal13 (connRecs (capInfo (evs.map CEv.cap)) (sessionOf (evs.map CEv.cap) (optsOf args ports pm) p0 rest)))
+    -- what the write loop needs (each CAN fail on the real tool: see the header)
+    (hcport : fl.clientPort < 65536) (hsport : fl.serverPort < 65536) (hpmv : ∀ kv ∈ pm, kv.2.toNat < 65536)
+    (hbytes : (Spec.TlsConnection.plainOf t.cEvs).length + (Spec.TlsConnection.plainOf t.sEvs).length + 1 < 2 ^ 32)
+    (hrec : RecordsFit H P (capInfo (evs.map CEv.cap)) (sessionOf (evs.map CEv.cap) (optsOf args ports pm) p0 rest)
+      ((fileKeysOf keyFile).getD []))
+    (hus : ∀ e ∈ evs.map CEv.cap, e.us < 2 ^ 64)
+    (hothers : ∀ blk, Pipeline.connOut H P (capInfo (evs.map CEv.cap))
+        (sessionOf (evs.map CEv.cap) (optsOf args ports pm) p0 rest) ((fileKeysOf keyFile).getD []) = some blk →
+      OthersFit mask H P args keyFile (evs.map CEv.cap) blk) :
+    ∃ f, exportFile mask H P args cv.isLegacy keyFile (Spec.Containers.encode cv cevs) = .file f ∧
+      Exact f (sessionOf (evs.map CEv.cap) (optsOf args ports pm) p0 rest)
+        (Spec.TlsConnection.plainOf t.cEvs) (Spec.TlsConnection.plainOf t.sEvs) := by
+  have hread : Container.read cv.isLegacy (Spec.Containers.encode cv cevs) = .ok ((evs.map CEv.cap).map CapEv.item) := by
+    rw [Props.C12.reader_roundtrip cv cevs hcwf, hitems]
+  have hok := capOk_of_described fl evs hdesc hnot1
+  obtain ⟨hF, hcand, hsrv, hcli, hdelv⟩ :=
+    described_session fl hne evs hdesc (optsOf args ports pm) hnoc hsp hcp p0 rest hfp
+  obtain ⟨frames, hconn, hre, _⟩ := tls13_connection_exact H P L ((fileKeysOf keyFile).getD []) (capInfo (evs.map CEv.cap))
+    (sessionOf (evs.map CEv.cap) (optsOf args ports pm) p0 rest) hmeta t hch hsh hrc hrs hv hcomp hneg ps hres a hargs fk fks
+    hfound secrets hsec k hgen chk chiv cak caiv shk shiv sak saiv hk cls hcls h1 h2 h3 h4 hsc hss hokc hoks hwr hlen
+    (hdelv _ hwires) hcausal
+  have hfits := connOut_fits H P (capInfo (evs.map CEv.cap)) (sessionOf (evs.map CEv.cap) (optsOf args ports pm) p0 rest)
+    ((fileKeysOf keyFile).getD []) frames _ _ hconn hre hrec hbytes
+    (by rw [hcli]; exact hcport)
+    (by rw [hsrv]; exact exported_lt _ _ _ hsport hpmv)
+    (capInfo_ts _ hus)
+  obtain ⟨f, hf, hrb⟩ := export_of_session_file mask H P args cv.isLegacy keyFile _ (evs.map CEv.cap) hread hok hnoc pm ports
+    hpm hports (refPkt fl) p0 rest hF hcand _ hconn hfits (hothers _ hconn)
+  exact ⟨f, hf, frames, hrb, hre⟩
+
+end
+
 end TLX.Props.C01File2
